@@ -249,17 +249,21 @@ func (fs *FS) Remove(name string) error {
 	if err != nil {
 		return fs.wrapperErr("remove", name, err)
 	}
+	if name == "." {
+		// the root directory cannot be removed
+		return fs.wrapperErr("remove", name, hackpadfs.ErrInvalid)
+	}
 
 	if file.Mode().IsDir() {
 		dirNames, err := file.ReadDirNames()
 		if err != nil {
-			return err
+			return fs.wrapperErr("remove", name, err)
 		}
 		if len(dirNames) > 0 {
 			return &hackpadfs.PathError{Op: "remove", Path: name, Err: hackpadfs.ErrNotEmpty}
 		}
 	}
-	return fs.setFile(name, nil)
+	return fs.wrapperErr("remove", name, fs.setFile(name, nil))
 }
 
 // Rename implements hackpadfs.RenameFS
